@@ -478,4 +478,50 @@ example : (AliasCfg.run sL [.setList 0 0, .setList 1 0, .add 1 "ll".toList]).cmd
 
 end AuditR9
 
+/-! ## Several resolves on one application (one cached resolver object)
+
+`resolveHistory` (Model/Resolver.lean) is the sequence of answers of the calls made one after the other on one
+resolver object.  Nothing a call reached is seen by a later call: every line is resolved as it would be alone. -/
+section History
+
+/-- **Every call of a history answers what the same line answers alone**, whatever the calls before it reached
+(no hypothesis; any tree, any lines, any number of calls). -/
+theorem history_each_alone (cv : Conv) (app : List Cmd) (lines : List (List Str)) :
+    ∀ prev : Option (Cmd × List Str), resolveHistory cv app prev lines = lines.map (resolve cv app) := by
+  induction lines with
+  | nil => intro _; rfl
+  | cons l r ih => intro _; simp only [resolveHistory, List.map_cons, ih]
+
+/-- the `i`-th call of a history: the resolution of the `i`-th line on a fresh application -/
+theorem history_nth_alone (cv : Conv) (app : List Cmd) (lines : List (List Str)) (i : Nat) :
+    (resolveHistory cv app none lines)[i]? = (lines[i]?).map (resolve cv app) := by
+  rw [history_each_alone]; exact List.getElem?_map
+
+/-- a line with no leading tokens after ANY history selects among the application's default commands (never the
+command an earlier call reached) -/
+theorem history_no_lead (cv : Conv) (app : List Cmd) (before : List (List Str)) (toks : List Str)
+    (hl : lead toks = []) :
+    (resolveHistory cv app none (before ++ [toks]))[before.length]? = some
+      (match pickDefault cv toks [] (defaultColl app).values none with
+      | .error e => .error e
+      | .ok (some r) => created r
+      | .ok none => .error .cannotResolve) := by
+  rw [history_nth_alone, ← resolve_no_lead cv app toks hl]; simp
+
+/-- a first token naming no command is undefined after ANY history -/
+theorem history_unknown_first (cv : Conv) (app : List Cmd) (before : List (List Str)) (toks : List Str) (n : Str)
+    (r : List Str) (hl : lead toks = n :: r) (hn : (namedColl app).get? n = none) :
+    (resolveHistory cv app none (before ++ [toks]))[before.length]? = some (.error .cannotResolve) := by
+  rw [history_nth_alone, ← resolve_unknown_first cv app toks n r hl hn]; simp
+
+/-- after `server add`, the empty line still selects the default command `list`, and `nope` is still undefined -/
+example : (resolveHistory cvN app1 none [["server".toList, "add".toList], []])[1]? =
+    some (.ok (["list".toList], { args := [], opts := [] })) := by
+  exact (history_no_lead cvN app1 [["server".toList, "add".toList]] [] rfl).trans rfl
+example : (resolveHistory cvN app1 none [["server".toList, "add".toList], ["nope".toList]])[1]? =
+    some (.error .cannotResolve) :=
+  history_unknown_first cvN app1 [["server".toList, "add".toList]] ["nope".toList] "nope".toList [] rfl (by decide)
+
+end History
+
 end Clikit.Props.C03
